@@ -26,7 +26,9 @@ import (
 
 	"github.com/icon-project/goloop/block"
 	"github.com/icon-project/goloop/chain/base"
+	"github.com/icon-project/goloop/common"
 	"github.com/icon-project/goloop/common/codec"
+	"github.com/icon-project/goloop/common/crypto"
 	"github.com/icon-project/goloop/consensus"
 	"github.com/icon-project/goloop/module"
 	"github.com/icon-project/goloop/service"
@@ -332,6 +334,7 @@ func TestReplay(t *testing.T) {
 			return fmt.Errorf("case %d: the filters of two non-empty digests differ (model assumes one BTP network)", idx)
 		}
 		f := X.Clone()
+		nonCanon := ""
 		for p, src := range s.Src {
 			if src == "X" {
 				continue
@@ -341,6 +344,20 @@ func TestReplay(t *testing.T) {
 				crnd.Read(g)
 				g[0] = 0xf9 // an RLP list header that promises more than there is
 				return g
+			}
+			if src == "N" {
+				// X's own vote list, written non-canonically, under a header that commits to exactly those bytes
+				nb, how, err := nonCanonicalVotes(crnd, X.BF.Votes)
+				if err != nil {
+					return fmt.Errorf("case %d: %v", idx, err)
+				}
+				if cvs := consensus.NewCommitVoteSetFromBytes(nb); cvs == nil || bytes.Equal(nb, X.BF.Votes) {
+					return fmt.Errorf("case %d: the %s form of the vote list is not a second encoding of a vote list", idx, how)
+				}
+				f.BF.Votes = nb
+				f.HF.VotesHash = crypto.SHA3Sum256(nb)
+				nonCanon = how
+				continue
 			}
 			if src == "G" {
 				switch p {
@@ -506,7 +523,7 @@ func TestReplay(t *testing.T) {
 				}
 				return bdf.NewBlockDataFromReader(rd)
 			})
-			det := map[string]interface{}{"behaviour": steps, "via": via, "stream": fmt.Sprintf("%x", stream), "spec": s.Res,
+			det := map[string]interface{}{"behaviour": steps, "via": via, "stream": fmt.Sprintf("%x", stream), "spec": s.Res, "noncanonical": nonCanon,
 				"real": fmt.Sprint(derr), "x_height": xblk.Height()}
 			cid := id + "/" + via
 			if panicked == hung {
@@ -531,6 +548,9 @@ func TestReplay(t *testing.T) {
 			switch {
 			case derr == nil && s.Res == "reject":
 				det["unbound"] = unbound(bd, stream)
+				if s.Dmg.Class == "none" {
+					det["header_roundtrip"] = headerRoundTrip(bd, hEnc)
+				}
 				violation(cid, "decode:accepted:"+mutated(s), fmt.Sprintf("%s.NewBlockDataFromReader accepts a stream the spec rejects: %s", via, sigOf(s)), det)
 			case derr != nil && s.Res == "ok":
 				out.Divergence(cid, fmt.Sprintf("%s.NewBlockDataFromReader rejects a stream the spec accepts: %s: %v", via, sigOf(s), derr), det)
@@ -625,6 +645,50 @@ func mutateHeader(rnd *rand.Rand, h *block.V2HeaderFormat, hEnc []byte, class st
 		fs = append(fs, v) // a filter where the block has none
 	}
 	return rlpList(fs), nil
+}
+
+// nonCanonicalVotes rewrites the encoding of a vote list without changing the list: a byte after the list, or the optional
+// (empty) proof field written out.
+func nonCanonicalVotes(rnd *rand.Rand, vb []byte) ([]byte, string, error) {
+	type item struct {
+		Timestamp int64
+		Signature common.Signature
+	}
+	var three struct {
+		Round int32
+		BPSID *consensus.PartSetIDAndAppData
+		Items []item
+	}
+	if rnd.Intn(2) == 0 {
+		if _, err := codec.BC.UnmarshalFromBytes(vb, &three); err == nil {
+			four := struct {
+				Round  int32
+				BPSID  *consensus.PartSetIDAndAppData
+				Items  []item
+				Proves [][]byte
+			}{three.Round, three.BPSID, three.Items, [][]byte{}}
+			nb, err := codec.BC.MarshalToBytes(&four)
+			if err == nil && !bytes.Equal(nb, vb) {
+				return nb, "explicit-empty-proofs", nil
+			}
+		}
+	}
+	return append(append([]byte{}, vb...), byte(rnd.Intn(256))), "trailing-byte", nil
+}
+
+// headerRoundTrip tells whether the decoded block has the id of, and re-encodes to, the header bytes it was decoded from.
+func headerRoundTrip(bd module.BlockData, hdr []byte) string {
+	var buf bytes.Buffer
+	if err := bd.MarshalHeader(&buf); err != nil {
+		return "marshal: " + err.Error()
+	}
+	if !bytes.Equal(buf.Bytes(), hdr) {
+		return "re-encodes to another header"
+	}
+	if !bytes.Equal(bd.ID(), crypto.SHA3Sum256(hdr)) {
+		return "id is not the hash of the header"
+	}
+	return ""
 }
 
 func mutated(s step) string {
